@@ -36,6 +36,7 @@ namespace impl {
 		unsigned size,triggers_count,limit;
 		bool process_shared;
 		long long shm_free,shm_max_chunk,shm_size;
+		unsigned long memory_evictions,memory_clears; // running counts: entries dropped for low shared memory, clear() after bad_alloc
 		std::string inconsistency; // empty if the indexes agree
 	};
 	bool CPPCMS_API verif_cache_dump(base_cache *c,verif_cache_dump_result &out);
